@@ -502,6 +502,8 @@ class Sym:
         self.handler_swallows: dict[tuple[int, int], bool] = {}  # (try id, handler index) -> the handler can complete without raising
         self._n = 0
         self.notes: list[str] = []
+        self.position_keys: list[str] = []  # keys of the results of str.find / rfind / index / rindex
+        self.uninterpreted: dict[str, tuple] = {}  # free atom -> position keys it talks about (a test the model could not interpret)
 
     def fresh(self) -> int:
         self._n += 1
@@ -537,6 +539,14 @@ class Sym:
         if isinstance(v, Opq):
             if v.kind == "len" and v.meta:
                 return self.truth(v.meta[0], st)
+            if v.kind == "offset":
+                return f_not(self.eq(v.meta[0], Const(-v.meta[1]), st))  # `if position + 1:` - found
+            if v.kind == "invert" and v.meta:
+                return f_not(self.eq(v.meta[0], Const(-1), st))  # `if ~position:` - found
+            if v.kind in ("find", "index"):
+                return f_not(self.eq(v, Const(0), st))  # `if position:` - anything but index 0 (-1 is truthy)
+            if v.kind in ("", "min", "max", "call"):
+                return self._note_free(f"bool({v.key})", v)
             return atom(f"bool({v.key})")
         if isinstance(v, Phi):
             return f_or([f_and([c, self.truth(a, st)]) for c, a in v.alts])
@@ -552,6 +562,13 @@ class Sym:
                 return atom(f"bool({key(v)})")
             return TRUE
         return TRUE
+
+    def _note_free(self, name: str, *vals: Val) -> Formula:
+        """A free atom for a test the model does not interpret; remembered when it is about a search position."""
+        ks = tuple(pk for pk in self.position_keys if any(pk in key(v) for v in vals))
+        if ks:
+            self.uninterpreted[name] = ks
+        return atom(name)
 
     def is_none(self, v: Val, st: State) -> Formula:
         if isinstance(v, Const):
@@ -575,6 +592,8 @@ class Sym:
             except Exception:  # noqa: BLE001
                 return FALSE
         for x, y in ((a, b), (b, a)):
+            if isinstance(x, Opq) and x.kind == "offset" and isinstance(y, Const) and isinstance(y.value, int) and not isinstance(y.value, bool):
+                x, y = x.meta[0], Const(y.value - x.meta[1])  # position + d == n  <=>  position == n - d
             if isinstance(y, Const):
                 if y.value is None:
                     return self.is_none(x, st)
@@ -582,6 +601,10 @@ class Sym:
                     return x.f
                 if y.value is False and isinstance(x, BoolV):
                     return f_not(x.f)
+                if isinstance(x, Opq) and x.kind in ("find", "index") and isinstance(y.value, int) and not isinstance(y.value, bool) and y.value < (-1 if x.kind == "find" else 0):
+                    return FALSE
+                if isinstance(x, Opq) and x.kind == "index" and isinstance(y.value, int) and not isinstance(y.value, bool):
+                    return atom(f"{x.key} == {y.value}")
                 if isinstance(x, Opq) and x.kind == "find" and y.value == -1:
                     return atom(f"notfound({x.key})")
                 if isinstance(x, Opq) and x.kind == "find" and isinstance(y.value, int) and not isinstance(y.value, bool) and y.value >= 0:
@@ -601,7 +624,7 @@ class Sym:
         if ka == kb:
             return TRUE
         k1, k2 = sorted([ka, kb])
-        return atom(f"{k1} == {k2}")
+        return self._note_free(f"{k1} == {k2}", a, b)
 
     def contains(self, x: Val, c: Val, st: State) -> Formula:
         if isinstance(c, Phi):
@@ -874,11 +897,20 @@ class Sym:
         return BoolV(f_and(fs) if is_and else f_or(fs), deps)
 
     def _e_UnaryOp(self, e, st, ctx):
-        v = self.eval(e.operand, st, ctx)
+        return self._unary(e.op, self.eval(e.operand, st, ctx), st)
+
+    def _unary(self, op: ast.unaryop, v: Val, st: State) -> Val:
+        e = ast.UnaryOp(op=op, operand=ast.Constant(value=None))
         if isinstance(e.op, ast.Not):
             return BoolV(f_not(self.truth(v, st)), self.deps(v, st))
+        if isinstance(v, Phi):
+            return mk_phi([(c, self._unary(op, a, st)) for c, a in v.alts])
         if isinstance(e.op, ast.USub) and isinstance(v, Const) and isinstance(v.value, (int, float)):
             return Const(-v.value)
+        if isinstance(e.op, ast.Invert) and isinstance(v, Const) and isinstance(v.value, int):
+            return Const(~v.value)
+        if isinstance(e.op, ast.Invert) and isinstance(v, Opq) and v.kind == "find":
+            return Opq(f"(Invert {key(v)})", self.deps(v, st), kind="invert", meta=(v,))
         return Opq(f"({type(e.op).__name__} {key(v)})", self.deps(v, st))
 
     def _e_IfExp(self, e, st, ctx):
@@ -936,6 +968,8 @@ class Sym:
         for x, y, o in ((a, b, op), (b, a, _flip(op))):
             if isinstance(y, Const) and isinstance(y.value, int) and not isinstance(y.value, bool):
                 n = y.value
+                if isinstance(x, Opq) and x.kind == "offset":
+                    x, n = x.meta[0], n - x.meta[1]  # position + d OP n  ==  position OP n - d
                 if isinstance(x, Opq) and x.kind == "len" and x.meta and isinstance(x.meta[0], Opq) and x.meta[0].kind == "split":
                     one = atom(f"notfound({x.meta[0].key})")
                     if (isinstance(o, ast.Lt) and n == 2) or (isinstance(o, ast.LtE) and n == 1):
@@ -948,6 +982,16 @@ class Sym:
                         return t
                     if (isinstance(o, ast.Lt) and n == 1) or (isinstance(o, ast.LtE) and n == 0):
                         return f_not(t)
+                if isinstance(x, Opq) and x.kind in ("min", "max") and x.meta:
+                    # min(a, b) < n: some operand is; min(a, b) > n: every operand is (max the other way round)
+                    parts = [self.compare(arg, o, Const(n), st) for arg in x.meta]
+                    some = isinstance(o, (ast.Lt, ast.LtE)) == (x.kind == "min")
+                    return f_or(parts) if some else f_and(parts)
+                if isinstance(x, Opq) and x.kind == "index":
+                    # str.index / rindex yield a position >= 0 (they raise when the needle is absent)
+                    m, positive = {ast.Gt: (n, True), ast.GtE: (n - 1, True), ast.Lt: (n - 1, False), ast.LtE: (n, False)}[type(o)]
+                    g = TRUE if m < 0 else atom(f"{x.key} Gt {m}")
+                    return g if positive else f_not(g)
                 if isinstance(x, Opq) and x.kind == "find":
                     # str.find / rfind yield -1 ("not found") or a position >= 0; every ordering against an integer is
                     # normalised to `x > m`, which for m >= 0 holds only when the needle was found
@@ -960,12 +1004,13 @@ class Sym:
                         return ("const", bool({ast.Lt: x.value < n, ast.LtE: x.value <= n, ast.Gt: x.value > n, ast.GtE: x.value >= n}[type(o)]))
                     except Exception:  # noqa: BLE001
                         pass
-        free = atom(f"{key(a)} {type(op).__name__} {key(b)}")
+        name = f"{key(a)} {type(op).__name__} {key(b)}"
+        free = atom(name)
         # `a < b` between two find-results: b is a position (>= 0 > -1 is the only way to exceed a value >= -1)
         lo, hi = (a, b) if isinstance(op, ast.Lt) else ((b, a) if isinstance(op, ast.Gt) else (None, None))
         if isinstance(lo, Opq) and isinstance(hi, Opq) and lo.kind == "find" and hi.kind == "find":
             return f_and([free, f_not(atom(f"notfound({hi.key})"))])
-        return free
+        return self._note_free(name, a, b)
 
     def _e_JoinedStr(self, e, st, ctx):
         parts = []
@@ -1007,9 +1052,11 @@ class Sym:
         if isinstance(a, Coll) or isinstance(b, Coll):
             items = (self.exact_items(a, st) or []) + (self.exact_items(b, st) or []) if isinstance(e.op, (ast.Add, ast.BitOr)) else []
             return self.new_coll(st, "list" if isinstance(e.op, ast.Add) else "set", items, exact=False, deps=deps)
-        if isinstance(e.op, (ast.Add, ast.Sub)) and isinstance(a, Opq) and a.kind in ("find", "offset") and isinstance(b, Const) and isinstance(b.value, int) and not isinstance(b.value, bool):
+        if isinstance(e.op, ast.Add) and isinstance(b, Opq) and b.kind in ("find", "index", "offset") and isinstance(a, Const):
+            a, b = b, a  # 1 + position
+        if isinstance(e.op, (ast.Add, ast.Sub)) and isinstance(a, Opq) and a.kind in ("find", "index", "offset") and isinstance(b, Const) and isinstance(b.value, int) and not isinstance(b.value, bool):
             # a search position moved by a constant: (position, displacement)
-            base_pos, off = (a, 0) if a.kind == "find" else a.meta
+            base_pos, off = (a, 0) if a.kind in ("find", "index") else a.meta
             return Opq(f"({key(a)} {type(e.op).__name__} {key(b)})", deps, kind="offset", meta=(base_pos, off + (b.value if isinstance(e.op, ast.Add) else -b.value)))
         return Opq(f"({key(a)} {type(e.op).__name__} {key(b)})", deps)
 
@@ -1656,6 +1703,8 @@ class Sym:
         if attr in STR_SEARCH and args and (is_str or not self.classes_of(base, e.func.value, ctx)):
             res = Opq(f"{key(base)}.{attr}({', '.join(key(a) for a in args)})", bdeps, kind="find" if attr in ("find", "rfind") else "index", meta=(self.deps(args[0], st), self.deps(base, st)))
             self.emit("call", attr, args, base, st, ctx, e, t, res)
+            if res.key not in self.position_keys:
+                self.position_keys.append(res.key)
             if attr in ("find", "rfind") and len(args) == 3 and isinstance(args[0], Const) and isinstance(args[0].value, str) and args[0].value:
                 # text.rfind(needle, 0, max(earlier - k, 0)): when the earlier search found nothing (-1) the range is empty and
                 # a non-empty needle is not found either.  (An unclamped `earlier - k` would be a negative = end-relative bound.)
